@@ -627,6 +627,13 @@ pub fn corpus() -> Vec<(String, Target)> {
         ("€: 1\n𝄞: 2\n", Json),
         ("a: 1\n...\n", Json),
         ("a: 1\n...\n# after\n", Json),
+        // text that the scanner rejects behind an explicit end marker is ignored by the single-document
+        // entry points; a reader fault or the cap inside it is not
+        ("a: 1\n...\n\"never closed trailing text that goes on for a while so that several reads fall into it\n", Json),
+        ("name: a\nn: 1\n...\n] stray closing bracket and more text behind it, and more, and more\n", Cfg),
+        // (ASCII only: what lies behind the point where the scanner gives up is never decoded, so a stream
+        // that ends inside a character there goes unnoticed - recorded in DESIGN §6, not decided)
+        ("- 1\n- 2\n...\n@ reserved indicator, then a long tail of text that is not YAML at all\n", VecI),
         ("- &a x\n- *a\n- &b [1, 2]\n- *b\n", Json),
         ("x: [a, b\n", Json),
         ("x: {a: 1\n", Json),
